@@ -287,7 +287,7 @@ def configs(tier):
     for kind in ('omopso', 'smpso'):
         out.append({'name': 'turbulence-%s' % kind, 'task': 'turbulence', 'args': {'kind': kind, 'npart': 2 if Q else 4},
                     'weight': 30, 'split': 32, 'engine': box_eng})
-    for prec in (None, 1e-3, 0.25):
+    for prec in (None, 1e-3, 0.25, 0.5, 5.0, 0.02):     # incl. precisions that are not powers of ten
         out.append({'name': 'gen-number-prec-%s' % prec, 'task': 'gen_number', 'args': {'precision': prec}, 'weight': 2,
                     'engine': {'validate': 20}})
     out.append({'name': 'random-generator-2x2', 'task': 'gen_vector', 'args': {'n': 2, 'number': 2}, 'weight': 5, 'engine': {'validate': 10}})
